@@ -5,6 +5,15 @@ import common, lib, findings
 from comp import Comp
 
 
+class CallableObject:
+    """a one-argument callable without `__name__`"""
+    def __call__(self, x):
+        return 0.0
+
+    def method(self, x):
+        return 0.0
+
+
 def make_obj(L, cls):
     np = L['np']
     k = L['kinds']
@@ -146,6 +155,7 @@ def values_for(L, setter, obj):
             [1, 2], [], {}, {'w': 1}, (1,), np.zeros(2), np.zeros((2, 1)), np.zeros(3), np.zeros(1), np.int64(3), np.float64(0.5),
             L['Node'](name=1, type='TERMINAL', value=np.zeros((1, 1))), L['Agent'](), (lambda x: 0.0), (lambda: 0.0), (lambda x, y: 0.0),
             (lambda x, y=2: 0.0), (lambda x, *, shift=0: 0.0), functools.partial((lambda x, y: 0.0), y=3), (lambda *a: 0.0),
+            CallableObject(), CallableObject().method, functools.partial((lambda a, x: 0.0), 1.0),
             Unbuilt(), L['kinds']['PSO'](), L['Function'](pointer=lambda x: 0.0)]
     for g in setter['guards']:
         c = g['cdesc']
@@ -256,6 +266,32 @@ def check(ctx):
                     continue
                 if o != outcome:
                     C.issue('setter-mismatch', 'correspondence', rp, model=o, real=outcome)
+        # Function / WeightedFunction constructors route the callable through the same setter: same outcome, and an
+        # accepted callable (whatever its kind: function, lambda, callable object, bound method, partial) is stored
+        for v in [(lambda x: 0.0), CallableObject(), CallableObject().method, functools.partial((lambda a, x: 0.0), 1.0),
+                  (lambda: 0.0), (lambda x, y: 0.0), (lambda x, y=2: 0.0), 3, None]:
+            rp = dict(how='function-ctor', value=repr(v)[:60])
+            probe = L['Function'](pointer=lambda x: 0.0)
+            try:
+                probe.pointer = v
+                want = 'accept'
+            except tuple(errname) as ex:
+                want = errname[type(ex)]
+            for how, build in (('Function', lambda: L['Function'](pointer=v)),
+                               ('WeightedFunction', lambda: L['WeightedFunction'](functions=[v], weights=[1.0]))):
+                try:
+                    o_ = build()
+                    got = 'accept'
+                    stored = o_.pointer if how == 'Function' else o_.functions[0].pointer
+                    if stored is not v:
+                        C.issue('accepted-value-not-stored-unchanged', 'oracle', dict(rp, via=how))
+                except tuple(errname) as ex:
+                    got = errname[type(ex)]
+                except Exception as ex:
+                    got = 'untyped:' + type(ex).__name__
+                if got != want:
+                    C.issue('constructor-disagrees-with-setter', 'oracle', dict(rp, via=how), constructor=got, setter=want)
+                C.case(key=('function-ctor', how, repr(v)[:40]), nontrivial=True, kind='function-ctor')
         # constructor dictionaries go through the same validation
         for name, K in L['kinds'].items():
             obj = K()
